@@ -648,6 +648,9 @@ func c11Step(w *World, h *HistRun, i int) (fs []Finding) {
 	if st.Resp.Code >= 500 {
 		fs = append(fs, Finding{"server-error/" + cls, fmt.Sprintf("step %d %s [%s] body %s answered %d %s", i, what, c11Label(st.Op), oneLine(st.Op.Raw, 200), st.Resp.Code, oneLine(st.Resp.Body, 100))})
 	}
+	if st.Post != nil && st.Post.Cgf != nil && len(st.Post.Cgf.Overlaps) > 0 && (st.Pre == nil || st.Pre.Cgf == nil || len(st.Pre.Cgf.Overlaps) < len(st.Post.Cgf.Overlaps)) {
+		fs = append(fs, Finding{"cdr-transfer-derailed/" + cls, fmt.Sprintf("step %d %s [%s]: %v", i, what, c11Label(st.Op), st.Post.Cgf.Overlaps)})
+	}
 	if st.Resp.Code >= 400 && st.Resp.Code < 500 && !isProblem(st.Resp.Body) {
 		fs = append(fs, Finding{"rejection-without-problem-details/" + cls, fmt.Sprintf("step %d %s [%s] answered %d with body %q", i, what, c11Label(st.Op), st.Resp.Code, oneLine(st.Resp.Body, 100))})
 	}
@@ -709,7 +712,7 @@ func init() {
 		}
 		// odd subscriber identifiers: the follow-up create must use the same identifier
 		st := BFSStats{}
-		sp := BFSSpec{Name: "odd-supi-twice", Check: "C11", Oracle: "C11", Cfg: WorldCfg{Accounts: []Account{{supiA, 1, "1000", "2"}}, HorizonS: 120}, Supis: []string{supiA}, MaxDepth: 3,
+		sp := BFSSpec{Name: "odd-supi-twice", Check: "C11", Oracle: "C11", Cfg: WorldCfg{Accounts: []Account{{supiA, 1, "1000", "2"}}, HorizonS: 120, Cgf: true}, Supis: []string{supiA}, MaxDepth: 3,
 			Alphabet: func(raw json.RawMessage, depth int) (ops []Op) {
 				var in apiInfo
 				json.Unmarshal(raw, &in)
@@ -725,7 +728,9 @@ func init() {
 				}
 				for _, s := range []string{"imsi-", "imsi", "nai-user@example.org", "imsi-a/b", "imsi-../x", "208930000000001", "gci-1", "gli-1", "imsi-208930000000001 ", "imsi-%2e%2e", supiA,
 					"imsi-" + strings.Repeat("7", 300), "imsi-12\x0034", "nai", "gci", "gli", "IMSI-208930000000001", "imsi-.", "imsi-..",
-					"imsi-" + strings.Repeat("7", 246), "imsi-" + strings.Repeat("7", 247), "imsi-" + strings.Repeat("\u00e9", 130), "imsi-" + strings.Repeat("\u00e9", 123)} {
+					"imsi-" + strings.Repeat("7", 246), "imsi-" + strings.Repeat("7", 247), "imsi-" + strings.Repeat("\u00e9", 130), "imsi-" + strings.Repeat("\u00e9", 123),
+					// control characters: the identifier ends up in the command line of the CDR transfer
+					"imsi-12\r\nQUIT", "imsi-12\n", "imsi-12\t3", "imsi-12\x7f"} {
 					c := mkCreate(0, "smf1")
 					c.Supi, c.Method = s, "supi="+s
 					ops = append(ops, c)
